@@ -13,7 +13,7 @@ CHECKS = {
  "C03": ("exploration", "runtime monitoring: snapshots of the file at every up-to-date point decoded by an independent CDF-1/2/5 codec + layout invariants + inquiry reports",
          "random schemas (UTF-8 names, all attribute types/lengths), hints and __enddef arguments, writes, syncs, data-mode updates, redefinitions, clobbered predecessors; every snapshot is decoded strictly and compared with the model; header size/extent, offsets, recsize reports compared with the bytes", "4 C03"),
  "C04": ("exploration", "runtime monitoring: files from an independent encoder (layouts PnetCDF never writes, multi-chunk headers) opened and fully inquired/read",
-         "spec-valid files with arbitrary gaps, stale/saturated vsize, garbage fillers, any dimension order, headers across the 256 KiB read-chunk boundary (boundary sweep in steps of 4); all inquiries and reads compared with the encoded content on 1-4 ranks under random hints", "4 C04"),
+         "spec-valid files with arbitrary gaps, stale (also plausible 4-aligned too-large) / saturated vsize, garbage fillers, any dimension order, headers across the 256 KiB read-chunk boundary (boundary sweep in steps of 4); all inquiries and reads compared with the encoded content on 1-4 ranks under random hints", "4 C04"),
  "C05": ("exploration", "runtime monitoring: per-rank record-count model probed after every call + header bytes read from disk at sync points",
          "histories of collective/independent/nonblocking record writes with syncs, redefinitions and delays on 2-6 ranks; the unlimited dimension length is read on every rank after every step", "4 C05"),
  "C07": ("exploration", "runtime monitoring: sequential metadata model; full sweeps (by id and by name) after operations; header decode after data-mode updates",
@@ -25,15 +25,15 @@ CHECKS = {
  "C09": ("exploration", "runtime monitoring: exact reference conversion (Python integers / IEEE) against stored bytes and returned buffers; exhaustive for 8/16-bit sources",
          "all external x memory type pairs in CDF-1 and CDF-5, write direction (raw bytes read back) and read direction (encoder-made files), variables and attributes; every value of the 8- and 16-bit types, dense boundary sets for wider types; NC_ERANGE iff, fill substitution, NC_ECHAR, byte/uchar exemption", "4 C09"),
  "C10": ("exploration", "runtime monitoring: differential execution of one global program under K configurations + data model + logical dump",
-         "decomposition-independent programs rendered under random hint/process-count/mode configurations; read buffers, return codes and the logical dump of the final files must agree; reported alignment hints checked against real offsets", "4 C10"),
+         "decomposition-independent programs rendered under random hint/process-count/mode configurations (plus stride-stress programs under aggregation / nonblocking execution); read buffers, return codes and the logical dump of the final files must agree; reported alignment hints checked against real offsets", "4 C10"),
  "C12": ("exploration", "runtime monitoring: differential run burst-buffer driver vs default driver + data model + log-directory listing",
          "random put/iput/get programs executed under nc_burst_buf=enable (various flush-buffer sizes, shared logs, retention) and under the default driver; own-write reads, visibility after flush points, record counts, final logical dump and log clean-up checked", "4 C12"),
  "C13": ("exploration", "runtime monitoring: pristine-copy comparison of every write buffer, sentinel+guard zones on read buffers, attached-buffer ledger",
-         "histories of attach/bput/iput/iget/wait/cancel/detach across the in-place-swap threshold and swap hints; buffers compared byte-for-byte after every completing call; inq_buffer_usage against pending-bytes ledger; NC_EINSUFFBUF probes", "4 C13"),
+         "histories of attach/bput/iput/iget/wait/cancel/detach across the in-place-swap threshold, swap hints and the intra-node aggregation hint; buffers compared byte-for-byte after every completing call; inq_buffer_usage against pending-bytes ledger; NC_EINSUFFBUF probes", "4 C13"),
  "C14": ("exploration", "runtime monitoring: reference mode automaton; complete enumeration of mode-call sequences to depth 3/4 with ~55 probes per state",
          "every sequence of enddef/redef/begin_indep/end_indep/reopen rw/ro from created, opened-rw, opened-ro; probe battery from every API family after each step; return codes compared with the automaton, rejected calls must leave mode and metadata unchanged", "4 C14"),
  "C15": ("exploration", "runtime monitoring: reference predicate for error codes + in-process byte diff of the whole file around every request",
-         "near-exhaustive (start,count,stride) tuples in and beyond small 1-2 dimensional shapes through all request forms; rejected/zero/read requests must change no byte, accepted puts only bytes of addressed elements and numrecs", "4 C15"),
+         "near-exhaustive (start,count,stride) tuples in and beyond small 1-2 dimensional shapes through all request forms; rejected/zero/read requests must change no byte, accepted puts only bytes of addressed elements and numrecs; flexible requests whose buffer description (bufcount x derived type) has too many or too few elements must return NC_EIOMISMATCH and change nothing", "4 C15"),
  "C16": ("exploration", "runtime monitoring: fill-aware data model (mask = written or filled) + independent decode",
          "random fill settings (set_fill, def_var_fill, _FillValue), partial writes, redefinitions adding filled/unfilled variables over existing records, fill_var_rec; every variable re-read on every rank after each step", "4 C16"),
  "C11": ("fault_enumeration", "fault enumeration: PMPI shim fails every MPI-IO data-transfer call (rank x ordinal x error class) of 12 programs",
@@ -43,7 +43,7 @@ CHECKS = {
  "C18": ("exploration", "runtime monitoring: rule table for format limits vs def_dim/enddef results; sparse-file accesses across 2^31/2^32 verified by raw pread",
          "dimension lengths and variable-size combinations around every threshold in all formats; single elements on both sides of 2 GiB / 4 GiB written through all forms (incl. out-of-order nonblocking) and read back via API and raw file offset", "4 C18"),
  "C19": ("exploration", "sanitizers (ASan+UBSan, fatal) on every workload + malformed-input campaign (truncations, dictionary word substitution, multi-field corruption) with logical resource bounds",
-         "every header word x dictionary of extremes, every truncation, random corruptions of seed files in three formats opened on 1-2 ranks; no sanitizer report/abort/hang, NC error or self-consistent inquiries, header fetch count and peak heap bounded by file size", "4 C19"),
+         "every header word x dictionary of extremes, every truncation, random corruptions of seed files in three formats, and well-formed files with one over-long name (257-4096 bytes), opened on 1-2 ranks; no sanitizer report/abort/hang, NC error or self-consistent inquiries, header fetch count and peak heap bounded by file size", "4 C19"),
  "C20": ("exploration", "runtime monitoring of the utilities (sanitizer build) against the independent codec: accept/reject, same/different verdicts, parsed dumps, round trip",
          "ncvalidator on library-written, valid and single-violation files; cdfdiff/ncmpidiff (1-4 ranks) on re-layouts and single logical edits; ncmpidump/ncoffsets output parsed and compared with the decode; ncmpigen round trip", "4 C20"),
 }
